@@ -35,7 +35,7 @@ CLAIMED = {
     'C05': ('Coq proof of chain / no-stale-adoption / file-is-last invariants over all interleavings of the scheduler model + history analysis of real parallel runs',
             'no_stale, chain, written_was_checked, file_is_last for every reachable state of Model/SchedHier.v and d_no_stale, d_chain, d_file_is_last for Model/SchedDdmin.v; tie: recorded histories of real runs (hierarchical, hybrid, ddmin; -j 1..4; '
             'injected delays) are checked: every write preceded by an accepted test of the same tokens, adopting sweep/task based on the current input, file = last element.',
-            'Trusted: Coq kernel, launcher wrappers (module-level monkey patching), token digests. Real hierarchical histories are replayed in the extracted model; ddmin histories are checked by history analysis (adopted result computed against the current input).', 'DESIGN.md section 4/10, C05'),
+            'Trusted: Coq kernel, launcher wrappers (module-level monkey patching), token digests. Real hierarchical histories and every ddmin task-generator instance are replayed in the extracted models (SchedHier.v, SchedDdmin.v); ddmin workers log the digest of the input they really used against the one their task carries.', 'DESIGN.md section 4/10, C05'),
     'C18': ('Coq proof that one-worker (FIFO) executions of the scheduler model have prefix-comparable write histories (simulation by a deterministic sequential semantics) + repeated real -j1 runs',
             'seq_deterministic / seq_deterministic_final / seq_refines about Model/SchedHier.v, parametric in hash functions; tie: each job is run three times under different PYTHONHASHSEED and delays; '
             'write sequences and output bytes must coincide. Known finding F18 (fresh-variable names from node ids) is recognised and reported as KNOWN-FINDING.',
@@ -56,10 +56,11 @@ CLAIMED = {
             'crash_safe, complete_from_first_rewrite_on, interrupt_keeps_last_accepted about Model/FileProto.v for every chunking and prefix; truncating_protocol_refuted for the pre-repair protocol. Tie: the real write_smtlib_to_file with open/os wrapped: '
             'disk content read after each event, KeyboardInterrupt at every event index, observed operation history replayed in the extracted model; real runs with a concurrent reader, SIGKILL, SIGINT.',
             'PARTIAL: atomicity of rename(2), CPython buffering and signal timing are assumed/sampled, not proved.', 'DESIGN.md section 4, C06'),
-    'C03': ('Coq proof of termination of the strategy loop under a decreasing measure (well-founded variant, all interleavings) and of the linear iteration bounds of substitute/equality + bounded cycle/no-op search and watchdogged real runs',
+    'C03': ('Coq proof of termination of the strategy loop under a decreasing measure (well-founded variant, all interleavings) and of the linear iteration bounds of substitute/equality, and of a strictly decreasing measure for the 15 modelled rewrites (no_cycles_partial) + cycle/no-op/grow-and-return search and watchdogged real runs (--check-loops; accept-all command with --no-core)',
             'no_infinite_run / sweep_progress / adoptions_bounded about Model/SchedHier.v; subst_refines and eq_sm_refines give explicit fuel bounds for the only unbounded loops reachable from mutators. '
-            'The global no-cycle claim is false of the code (FAQ) and is searched, not proved: every proposal of every mutator on generated inputs (no-ops, hangs), second/third-level proposals (2-/3-cycles), real runs with --check-loops under a watchdog.',
-            'PARTIAL: absence of cycles is a bounded search, not a theorem; the decreasing measure is a hypothesis of the termination theorem. Known cycles are listed in known_findings.json.', 'DESIGN.md section 4, C03'),
+            'Props/C03Measure.v: a polynomial measure mu strictly decreased by every proposal of the 15 modelled rewrites at any position, hence no chain of them returns to a visited input (no_cycles_partial) and chains are bounded by mu. '
+            'The global no-cycle claim is false of the code (FAQ) and is searched for the other mutators: every proposal of every mutator on generated inputs (no-ops, hangs), second/third-level proposals (2-/3-cycles), grow-then-return search, real runs with --check-loops and with an accept-all command under a watchdog.',
+            'PARTIAL: absence of cycles is a theorem for 15 of 53 mutators and a bounded search for the rest; the decreasing measure is a hypothesis of the strategy-level termination theorem. Known cycles are listed in known_findings.json.', 'DESIGN.md section 4, C03'),
     'C15': ('Coq proof of the generic closure theorem (closed_apply, closed_apply_simp: C07 o C11) and of per-rewrite closure for the 15 modelled rewrites + exhaustive application of every proposal of all 53 mutators on generated and targeted inputs',
             'closed_apply: under NoDup ids and well-formed replacement values the substituted list (and apply_simp with declarations) is well formed and parses back from all four renderings; rw_*_wf for the 15 modelled rewrites; for all 53 mutators closure is also established by correspondence: every proposal of every mutator (all 53 exercised, targeted instances per class) is applied, rendered, '
             're-parsed and compared with the tree in memory; declarations must be fresh and precede their first use.',
